@@ -481,6 +481,10 @@ func (s *TermStore) bin(op Op, a, b *Term) *Term {
 		if a == b {
 			return s.Const(w, 0)
 		}
+		if b.IsConst() && a.op == OpXor && a.args[1].IsConst() {
+			// (x ^ c1) ^ c2 = x ^ (c1 ^ c2)
+			return s.bin(OpXor, a.args[0], s.Const(w, a.args[1].k^b.k))
+		}
 	case OpShl, OpLShr, OpAShr:
 		if b.IsConst() && b.k == 0 {
 			return a
